@@ -238,6 +238,9 @@ def _range(name, T):
     if name == "Rc":
         return ("time > %ds AND time <= %ds" % (T, T + 40), "time > T AND time <= T+40s",
                 T * NS + 1, (T + 40) * NS, [T * NS + 1, T * NS])
+    if name == "Rf":
+        return ("time >= %ds AND time <= %ds" % (T, T + 40), "time >= T AND time <= T+40s",
+                T * NS, (T + 40) * NS, [T * NS])
     if name == "Rd":
         return ("time >= %ds" % (T + 10), "time >= T+10s", (T + 10) * NS, None, [(T + 10) * NS])
     if name == "Re":
@@ -350,6 +353,7 @@ def statements(tier):
         for gb in (None, "host"):
             for desc in (False, True):
                 out.append(stmt(a, None, "Ra", gb, 10, None, desc, (2, 1)))
+                out.append(stmt(a, None, "Rf", gb, 10, "none", desc, (2, 1)))
     return out
 
 
